@@ -56,6 +56,12 @@ func c40RunProgram(p c40Program, rec *kit.Rec) (*c40Outcome, error) {
 		runs[i] = &c40ActorRun{idx: i, kind: a.Kind, done: make(chan struct{})}
 		runs[i].cur.Store(-1)
 	}
+	var seed *vcAttachedPub
+	if p.Seed {
+		if seed, err = vcAttachPub(w.pm.Load(), c40Focus[p.Focus][0], "seed"); err == nil {
+			seed.Write("seed")
+		}
+	}
 	for i := range runs {
 		go runs[i].run(w, p.Actors[i])
 	}
@@ -64,6 +70,10 @@ func c40RunProgram(p c40Program, rec *kit.Rec) (*c40Outcome, error) {
 			out.spans = append(out.spans, r.snapshot())
 		}
 		return out, nil
+	}
+
+	if seed != nil {
+		seed.Detach() // returns at once when the path is gone
 	}
 
 	// final shutdown (a second Close() after a generated shutdown returns at once), watched like a step
@@ -455,6 +465,11 @@ func TestVerifC40Programs(t *testing.T) {
 	}
 
 	rapid.Check(t, func(t *rapid.T) {
+		// units differ in GOMAXPROCS only; the salt (from the unit's env) shifts the draw stream so that they do not
+		// all run the same programs
+		for i := 0; i < kit.EnvInt("C40_SALT", 0); i++ {
+			rapid.Uint64().Draw(t, "salt")
+		}
 		p := c40GenProgram(t)
 		fmt.Fprintf(os.Stderr, "C40 RUN: %s\n", p.String())
 		out, err := c40RunProgram(p, rec)
@@ -463,6 +478,9 @@ func TestVerifC40Programs(t *testing.T) {
 			t.Fatalf("harness: %v", err)
 		}
 		rec.Case(out.nontrivial, p.String(), out.classes...)
+		if kit.EnvInt("C40_VERBOSE", 0) > 0 {
+			fmt.Fprintf(os.Stderr, "C40 DONE nontrivial=%v classes=%v\n%s", out.nontrivial, out.classes, c40Report(p, out))
+		}
 		if out.stalled != "" {
 			if !out.deadlock {
 				fmt.Fprintf(os.Stderr, "VERIF-INCONCLUSIVE: a step exceeded %v but goroutines were still moving (slow machine?)\n", c40StepLimit())
